@@ -839,70 +839,54 @@ theorem eOpIncr_VV (st : St) (a b incr : Win) (f fv : BinF) (ha : a.len ≠ 1) (
     eOpIncr st a b incr f fv = kIncrVV st a b incr fv accAdd := by
   simp [eOpIncr, isSc, ha, hb]
 
-/-- the scalar-scalar branch runs the in-place kernel on the operands first (finding F32) -/
+/-- the scalar-scalar branch computes `fv a0 b0` aside (a temporary of the Go code that is no part of the state) and
+    adds it to the increment; the operands are not written (finding F32, repaired) -/
 theorem eOpIncr_SS (st : St) (a b incr : Win) (f fv : BinF) (ha : a.len = 1) (hb : b.len = 1) :
     eOpIncr st a b incr f fv = (do
-      let s ← kVV st a b fv
-      if incr.len ≠ 1 then eOp s incr a (fun x y => .app2 "add" x y)
-      else s.wr incr 1 0 (accAdd (← s.rd incr 1 0) (← s.rd a 1 0))) := by
+      let a0 ← st.rd a 1 0
+      let b0 ← st.rd b 1 0
+      if incr.len ≠ 1 then kVS st incr (fv a0 b0) accAdd
+      else do st.wr incr 1 0 (accAdd (← st.rd incr 1 0) (fv a0 b0))) := by
   simp [eOpIncr, isSc, ha, hb]
 
-/-- What the scalar-scalar branch of `E.OpIncr` does (finding F32): the *first operand* is overwritten
-    with `fv a0 b0`, and that value is added to every cell of `incr`. -/
+/-- What the scalar-scalar branch of `E.OpIncr` does: `fv a0 b0` is added to every cell of `incr`; no cell outside the
+    window of `incr` changes — neither operand is written. No aliasing hypothesis is needed. -/
 theorem eOpIncr_SS_spec (st : St) (a b incr : Win) (f fv : BinF) (ha : a.len = 1) (hb : b.len = 1)
-    (hab : a.buf ≠ b.buf) (hia : incr.buf ≠ a.buf) (hcap : 1 ≤ b.cap)
     (hA : Has st a.buf a.off 1) (hB : Has st b.buf b.off 1) (hI : Has st incr.buf incr.off incr.len) :
-    ∃ st', eOpIncr st a b incr f fv = .ok st' ∧ st'.mheap = st.mheap ∧
-      cell st' a.buf a.off = some (fv (cellD st a.buf a.off) (cellD st b.buf b.off)) ∧
-      (∀ i, i < incr.len → cell st' incr.buf (incr.off + i) =
-        some (.app2 "add" (cellD st incr.buf (incr.off + i)) (fv (cellD st a.buf a.off) (cellD st b.buf b.off)))) ∧
-      (∀ b' k, b' ≠ incr.buf → (b' ≠ a.buf ∨ k ≠ a.off) → cell st' b' k = cell st b' k) := by
+    ∃ st', eOpIncr st a b incr f fv = .ok st' ∧
+      Writes st st' incr.buf incr.off incr.len
+        (fun i => accAdd (cellD st incr.buf (incr.off + i)) (fv (cellD st a.buf a.off) (cellD st b.buf b.off))) := by
   rw [eOpIncr_SS st a b incr f fv ha hb]
-  obtain ⟨s1, h1, w1⟩ := kVV_spec st a b fv hab (by omega) (by rw [ha]; exact hA) (by rw [ha]; exact hB)
-  rw [ha] at w1
-  have hc1 : cell s1 a.buf a.off = some (fv (cellD st a.buf a.off) (cellD st b.buf b.off)) := by
-    simpa using w1.val 0 (by omega)
-  have hI1 : Has s1 incr.buf incr.off incr.len := w1.has hI
-  have hfr1 : ∀ b' k, (b' ≠ a.buf ∨ k ≠ a.off) → cell s1 b' k = cell st b' k := by
-    intro b' k h
-    apply w1.frame
-    rcases h with h | h
-    · exact Or.inl h
-    · exact Or.inr (by omega)
-  simp only [h1, bind, Except.bind]
+  have hca : cell st a.buf a.off = some (cellD st a.buf a.off) := cell_some_cellD (by simpa using hA 0 (by omega))
+  have hcb : cell st b.buf b.off = some (cellD st b.buf b.off) := cell_some_cellD (by simpa using hB 0 (by omega))
+  rw [rd0_of_cell hca, rd0_of_cell hcb]
+  simp only [bind, Except.bind]
   by_cases hi : incr.len = 1
   · simp only [hi, ne_eq, not_true_eq_false, if_false]
-    have hci := hI1 0 (by omega)
+    have hci := hI 0 (by omega)
     simp only [Nat.add_zero] at hci
-    rw [rd0_of_cell (cell_some_cellD hci), rd0_of_cell hc1]
-    obtain ⟨s2, h2, hm2, _, hc2⟩ := St.wr_ok (s := s1) (w := incr) (n := 1) (i := 0)
-      (v := accAdd (cellD s1 incr.buf incr.off) (fv (cellD st a.buf a.off) (cellD st b.buf b.off)))
+    rw [rd0_of_cell (cell_some_cellD hci)]
+    obtain ⟨s2, h2, hm2, hs2, hc2⟩ := St.wr_ok (s := st) (w := incr) (n := 1) (i := 0)
+      (v := accAdd (cellD st incr.buf incr.off) (fv (cellD st a.buf a.off) (cellD st b.buf b.off)))
       (by omega) (by omega) (by simpa using hci)
-    refine ⟨s2, h2, hm2.trans w1.mheap, ?_, ?_, ?_⟩
-    · rw [hc2]
-      simp only [hia.symm, false_and, if_false]
-      exact hc1
+    refine ⟨s2, h2, hm2, hs2, ?_, ?_⟩
     · intro i hlt
       have : i = 0 := by omega
       subst this
       rw [hc2]
-      simp only [Int.toNat_zero, Nat.add_zero, and_self, if_true, accAdd]
-      rw [w1.cellD_other hia]
-    · intro b' k hb' h
+      simp
+    · intro b' k h
       rw [hc2]
-      simp only [hb', false_and, if_false]
-      exact hfr1 b' k h
+      have : ¬ (b' = incr.buf ∧ k = incr.off + (0 : Int).toNat) := by
+        rintro ⟨h1, h2⟩
+        simp only [Int.toNat_zero, Nat.add_zero] at h2
+        rcases h with h | h | h
+        · exact h h1
+        · omega
+        · omega
+      simp only [this, if_false]
   · simp only [hi, ne_eq, not_false_eq_true, if_true]
-    rw [eOp_scalar_right s1 incr a _ _ _ hi ha hc1]
-    obtain ⟨s2, h2, w2⟩ := kVS_spec s1 incr (fv (cellD st a.buf a.off) (cellD st b.buf b.off))
-      (fun x y => .app2 "add" x y) hI1
-    refine ⟨s2, h2, w2.mheap.trans w1.mheap, ?_, ?_, ?_⟩
-    · rw [w2.other hia.symm]; exact hc1
-    · intro i hlt
-      rw [w2.val i hlt, w1.cellD_other hia]
-    · intro b' k hb' h
-      rw [w2.other hb']
-      exact hfr1 b' k h
+    exact kVS_spec st incr _ accAdd hI
 
 /-! ### `St.get` / `St.set`, `rawCopy`, `clone`, fresh tensors at cell level -/
 
@@ -1107,14 +1091,15 @@ def denseLen (sh : Shape) : Nat := if sh.isEmpty then 1 else (totalSize sh).toNa
 /-- the state after allocating a zero-filled buffer of `n` cells -/
 def allocZero (st : St) (n : Nat) : St := { st with heap := st.heap.push (Array.replicate n Val.zero) }
 
-/-- the tensor created by `NewDense(dt, shape)` in state `st`: fresh buffer, row-major default strides -/
-def freshOf (st : St) (dt : String) (sh : Shape) : Dense :=
-  { ap := { shape := sh, strides := calcStrides sh, fin := true, o := { col := false } },
+/-- the tensor created by `newDenseLike(e, dt, t)` in state `st` for an operand of shape `sh` and data order `col`: fresh
+    buffer, the default strides of that order (`NewDense(dt, shape)` is the row-major case) -/
+def freshOf (st : St) (dt : String) (sh : Shape) (col : Bool) : Dense :=
+  { ap := { shape := sh, strides := Dense.defaultStrides col sh, fin := true, o := { col := col } },
     win := ⟨st.heap.size, 0, denseLen sh, denseLen sh⟩, dt := dt, eng := .std }
 
-theorem newDenseZero_eq (st : St) (dt : String) (sh : Shape) :
-    newDenseZero st dt sh = (allocZero st (denseLen sh), freshOf st dt sh) := by
-  simp [newDenseZero, Dense.fresh, St.alloc, allocZero, freshOf, denseLen, Dense.defaultStrides]
+theorem newDenseZero_eq (st : St) (dt : String) (sh : Shape) (col : Bool) :
+    newDenseZero st dt sh col = (allocZero st (denseLen sh), freshOf st dt sh col) := by
+  simp [newDenseZero, Dense.fresh, St.alloc, allocZero, freshOf, denseLen]
 
 theorem allocZero_cell_lt (st : St) (n b k : Nat) (hb : b < st.heap.size) :
     cell (allocZero st n) b k = cell st b k := cell_push_lt st _ b k hb
@@ -1467,6 +1452,26 @@ theorem engArithVV_incr_raw' (st : St) (op : String) (tc : List String) (a b r :
   exact ⟨s2, by simp only [hnr, h2, bind, Except.bind, Bool.false_eq_true, if_false]; rfl, w2⟩
 
 
+/-- incr mode with two one-element operands (finding F32, repaired): `op a0 b0` is added to every cell of the increment;
+    no other cell is written, whatever the aliasing between the three tensors -/
+theorem engArithVV_incr_raw_one' (st : St) (op : String) (tc : List String) (a b r : Dense) (hc : BinOK tc a b)
+    (hk : (kernelTypes op).contains a.dt = true) (hir : r.requiresIterator = false) (hord : sameOrd a b = true)
+    (hr : ReuseFits r a.shape a.dt a.ap.o.col)
+    (hla : a.win.len = 1) (hlb : b.win.len = 1)
+    (hA : InBuf st a.win.buf a.win.off 1) (hB : InBuf st b.win.buf b.win.off 1)
+    (hR : InBuf st r.win.buf r.win.off r.win.len) :
+    ∃ st', engArithVV st op tc a b { incr := some r } = .ok ⟨st', some r, .reuse⟩ ∧
+      Writes st st' r.win.buf r.win.off r.win.len (fun i =>
+        accAdd (cellD st r.win.buf (r.win.off + i))
+          (vecFn op a.dt (cellD st a.win.buf a.win.off) (cellD st b.win.buf b.win.off))) := by
+  have hia : a.requiresIterator = false := by simp [Dense.requiresIterator, hla]
+  have hib : b.requiresIterator = false := by simp [Dense.requiresIterator, hlb]
+  have hnr : incrRefused a.win b.win r.win = false := by simp [incrRefused, isSc, hla, hlb]
+  rw [engArithVV_raw_incr st op tc a b r hc hk hia hib hir hord hr]
+  obtain ⟨s2, h2, w2⟩ := eOpIncr_SS_spec st a.win b.win r.win (fun x y => .app2 op x y) (vecFn op a.dt) hla hlb
+    hA.has hB.has hR.has
+  exact ⟨s2, by simp only [hnr, h2, bind, Except.bind, Bool.false_eq_true, if_false]; rfl, w2⟩
+
 /-! ### iterator path -/
 
 theorem inRange_map_true {l : List Int} {n : Nat} (h : ∀ i ∈ l, 0 ≤ i ∧ i < (n : Int)) :
@@ -1593,8 +1598,8 @@ theorem engArithVV_reuse_iter' (st : St) (op : String) (tc : List String) (a b r
 theorem engCmpVV_raw_default (st : St) (op : String) (tc : List String) (a b : Dense) (hc : BinOK tc a b)
     (hia : a.requiresIterator = false) (hib : b.requiresIterator = false) (hord : sameOrd a b = true) :
     engCmpVV st op tc a b {} = (do
-      let s ← eCmp (allocZero st (denseLen a.shape)) a.win b.win (freshOf st "b" a.shape).win (fun x y => .app2 op x y)
-      pure ⟨s, none, .fresh (freshOf st "b" a.shape)⟩) := by
+      let s ← eCmp (allocZero st (denseLen a.shape)) a.win b.win (freshOf st "b" a.shape a.ap.o.col).win (fun x y => .app2 op x y)
+      pure ⟨s, none, .fresh (freshOf st "b" a.shape a.ap.o.col)⟩) := by
   unfold engCmpVV
   simp only [hc.ta, hc.tb, hc.ne, hc.sh, hfo_none, hia, hib, hord, newDenseZero_eq, bind, Except.bind, pure,
     Except.pure, Bool.not_true, Bool.false_eq_true, if_false, Bool.or_false, Bool.and_false, Bool.not_false,
@@ -1603,9 +1608,9 @@ theorem engCmpVV_raw_default (st : St) (op : String) (tc : List String) (a b : D
 theorem engCmpVV_raw_same (st : St) (op : String) (tc : List String) (a b : Dense) (hc : BinOK tc a b)
     (hia : a.requiresIterator = false) (hib : b.requiresIterator = false) (hord : sameOrd a b = true) :
     engCmpVV st op tc a b { same := true } = (do
-      let s ← Dense.rawCopy (allocZero st (denseLen a.shape)) (freshOf st a.dt a.shape).win a.win
-      let s ← eOp s (freshOf st a.dt a.shape).win b.win (fun x y => .app2 (op ++ ".same") x y)
-      pure ⟨s, none, .fresh (freshOf st a.dt a.shape)⟩) := by
+      let s ← Dense.rawCopy (allocZero st (denseLen a.shape)) (freshOf st a.dt a.shape a.ap.o.col).win a.win
+      let s ← eOp s (freshOf st a.dt a.shape a.ap.o.col).win b.win (fun x y => .app2 (op ++ ".same") x y)
+      pure ⟨s, none, .fresh (freshOf st a.dt a.shape a.ap.o.col)⟩) := by
   unfold engCmpVV
   simp only [hc.ta, hc.tb, hc.ne, hc.sh, hfo_none, hia, hib, hord, newDenseZero_eq, bind, Except.bind, pure,
     Except.pure, Bool.not_true, Bool.false_eq_true, if_false, Bool.or_false, Bool.and_false, Bool.not_false,
@@ -1627,12 +1632,12 @@ theorem engCmpVV_default' (st : St) (op : String) (tc : List String) (a b : Dens
     (hia : a.requiresIterator = false) (hib : b.requiresIterator = false) (hord : sameOrd a b = true)
     (hlen : a.win.len = b.win.len) (hcap : a.win.len ≤ b.win.cap) (hsz : a.win.len ≤ denseLen a.shape)
     (hA : InBuf st a.win.buf a.win.off a.win.len) (hB : InBuf st b.win.buf b.win.off a.win.len) :
-    ∃ st', engCmpVV st op tc a b {} = .ok ⟨st', none, .fresh (freshOf st "b" a.shape)⟩ ∧ st'.mheap = st.mheap ∧
+    ∃ st', engCmpVV st op tc a b {} = .ok ⟨st', none, .fresh (freshOf st "b" a.shape a.ap.o.col)⟩ ∧ st'.mheap = st.mheap ∧
       (∀ i, i < a.win.len → cell st' st.heap.size i =
         some (.app2 op (cellD st a.win.buf (a.win.off + i)) (cellD st b.win.buf (b.win.off + i)))) ∧
       (∀ b' k, b' < st.heap.size → cell st' b' k = cell st b' k) := by
   rw [engCmpVV_raw_default st op tc a b hc hia hib hord, eCmp_VV _ _ _ _ _ (by rw [hlen])]
-  obtain ⟨s2, h2, w2⟩ := kCmpVV_spec (allocZero st (denseLen a.shape)) a.win b.win (freshOf st "b" a.shape).win
+  obtain ⟨s2, h2, w2⟩ := kCmpVV_spec (allocZero st (denseLen a.shape)) a.win b.win (freshOf st "b" a.shape a.ap.o.col).win
     (fun x y => .app2 op x y)
     (by simp only [freshOf]; exact Nat.ne_of_lt hA.lt) (by simp only [freshOf]; exact Nat.ne_of_lt hB.lt)
     hcap (by simp only [freshOf]; exact hsz)
@@ -1652,21 +1657,21 @@ theorem engCmpVV_same' (st : St) (op : String) (tc : List String) (a b : Dense) 
     (hia : a.requiresIterator = false) (hib : b.requiresIterator = false) (hord : sameOrd a b = true)
     (hlen : a.win.len = b.win.len) (hcap : a.win.len ≤ b.win.cap) (hsz : a.win.len = denseLen a.shape)
     (hA : InBuf st a.win.buf a.win.off a.win.len) (hB : InBuf st b.win.buf b.win.off a.win.len) :
-    ∃ st', engCmpVV st op tc a b { same := true } = .ok ⟨st', none, .fresh (freshOf st a.dt a.shape)⟩ ∧
+    ∃ st', engCmpVV st op tc a b { same := true } = .ok ⟨st', none, .fresh (freshOf st a.dt a.shape a.ap.o.col)⟩ ∧
       st'.mheap = st.mheap ∧
       (∀ i, i < a.win.len → cell st' st.heap.size i =
         some (.app2 (op ++ ".same") (cellD st a.win.buf (a.win.off + i)) (cellD st b.win.buf (b.win.off + i)))) ∧
       (∀ b' k, b' < st.heap.size → cell st' b' k = cell st b' k) := by
   rw [engCmpVV_raw_same st op tc a b hc hia hib hord]
-  have hmin : min (freshOf st a.dt a.shape).win.len a.win.len = a.win.len := by
+  have hmin : min (freshOf st a.dt a.shape a.ap.o.col).win.len a.win.len = a.win.len := by
     simp only [freshOf, ← hsz, Nat.min_self]
-  obtain ⟨s1, h1, w1⟩ := rawCopy_total (allocZero st (denseLen a.shape)) (freshOf st a.dt a.shape).win a.win
+  obtain ⟨s1, h1, w1⟩ := rawCopy_total (allocZero st (denseLen a.shape)) (freshOf st a.dt a.shape a.ap.o.col).win a.win
     (by rw [hmin]; exact hA.has.allocZero hA.lt _)
     (by rw [hmin]; simp only [freshOf]; rw [← hsz]; exact allocZero_has st _)
   rw [hmin] at w1
   simp only [h1, bind, Except.bind]
   rw [eOp_VV _ _ _ _ _ (by simp only [freshOf, ← hsz, hlen])]
-  obtain ⟨s2, h2, w2⟩ := kVV_spec s1 (freshOf st a.dt a.shape).win b.win (fun x y => .app2 (op ++ ".same") x y)
+  obtain ⟨s2, h2, w2⟩ := kVV_spec s1 (freshOf st a.dt a.shape a.ap.o.col).win b.win (fun x y => .app2 (op ++ ".same") x y)
     (by simp only [freshOf]; exact (Nat.ne_of_lt hB.lt).symm)
     (by simp only [freshOf, ← hsz]; exact hcap)
     (by simp only [freshOf, ← hsz]; exact w1.has (by rw [hsz]; exact allocZero_has st _))
@@ -1701,8 +1706,8 @@ theorem engCmpVV_refuses' (st : St) (op : String) (tc : List String) (a b : Dens
 theorem engCmpScalar_raw_default_right (st : St) (op : String) (tc : List String) (t : Dense) (sc : ScalarArg)
     (hta : tc.contains t.dt = true) (hdt : t.dt = sc.dt) (hit : t.requiresIterator = false) :
     engCmpScalar st op tc t sc false {} = (do
-      let s ← eCmp (allocZero st (denseLen t.shape)) sc.win t.win (freshOf st "b" t.shape).win (fun x y => .app2 op x y)
-      pure ⟨s, none, .fresh (freshOf st "b" t.shape)⟩) := by
+      let s ← eCmp (allocZero st (denseLen t.shape)) sc.win t.win (freshOf st "b" t.shape t.ap.o.col).win (fun x y => .app2 op x y)
+      pure ⟨s, none, .fresh (freshOf st "b" t.shape t.ap.o.col)⟩) := by
   have hne : (t.dt != sc.dt) = false := by simp [hdt]
   unfold engCmpScalar
   simp only [hta, hne, hfo_none, hit, newDenseZero_eq, bind, Except.bind, pure,
@@ -1714,7 +1719,7 @@ theorem engCmpScalar_left' (st : St) (op : String) (tc : List String) (t : Dense
     (hta : tc.contains t.dt = true) (hdt : t.dt = sc.dt) (hit : t.requiresIterator = false)
     (hs1 : sc.win.len = 1) (ht1 : t.win.len ≠ 1) (hsz : t.win.len = denseLen t.shape)
     (hS : InBuf st sc.win.buf sc.win.off 1) (hT : InBuf st t.win.buf t.win.off t.win.len) :
-    ∃ st', engCmpScalar st op tc t sc false {} = .ok ⟨st', none, .fresh (freshOf st "b" t.shape)⟩ ∧
+    ∃ st', engCmpScalar st op tc t sc false {} = .ok ⟨st', none, .fresh (freshOf st "b" t.shape t.ap.o.col)⟩ ∧
       st'.mheap = st.mheap ∧
       (∀ i, i < t.win.len → cell st' st.heap.size i =
         some (.app2 op (cellD st sc.win.buf sc.win.off) (cellD st t.win.buf (t.win.off + i)))) ∧
@@ -1726,7 +1731,7 @@ theorem engCmpScalar_left' (st : St) (op : String) (tc : List String) (t : Dense
     exact cell_some_cellD (by simpa using hS.has 0 (by omega))
   simp only [rd0_of_cell hs0, bind, Except.bind]
   obtain ⟨s2, h2, w2⟩ := kRecvSV_spec (allocZero st (denseLen t.shape)) (cellD st sc.win.buf sc.win.off) t.win
-    (freshOf st "b" t.shape).win (fun x y => .app2 op x y)
+    (freshOf st "b" t.shape t.ap.o.col).win (fun x y => .app2 op x y)
     (by simp only [freshOf]; exact Nat.ne_of_lt hT.lt)
     (by simp only [freshOf, ← hsz]; exact Nat.le_refl _)
     (by simp only [freshOf, ← hsz]; exact hT.has.allocZero hT.lt _)
@@ -1740,7 +1745,60 @@ theorem engCmpScalar_left' (st : St) (op : String) (tc : List String) (t : Dense
   · intro b' k hb'
     rw [w2.other (Nat.ne_of_lt hb'), allocZero_cell_lt _ _ _ _ hb']
 
+/-- `UseUnsafe()` with the scalar on the left, raw path: the in-place kernel, then — both sides having one element — the
+    copy of the scalar's header back into the tensor -/
+theorem engCmpScalar_raw_unsafe_left (st : St) (op : String) (tc : List String) (t : Dense) (sc : ScalarArg)
+    (hta : tc.contains t.dt = true) (hdt : t.dt = sc.dt) (hit : t.requiresIterator = false) :
+    engCmpScalar st op tc t sc false { unsafe_ := true } = (do
+      let s ← eOp st sc.win t.win (fun x y => .app2 (op ++ ".same") x y)
+      let s ← (if (sc.win.len == 1 && t.win.len == 1) = true then Dense.rawCopy s t.win sc.win else pure s)
+      pure ⟨s, none, .a⟩) := by
+  have hne : (t.dt != sc.dt) = false := by simp [hdt]
+  unfold engCmpScalar
+  simp only [hta, hne, hfo_none, hit, bind, Except.bind, pure,
+    Except.pure, Bool.not_true, Bool.false_eq_true, if_false, Bool.or_false, Bool.and_false, Bool.not_false,
+    Bool.and_true, if_true, Bool.false_and, Bool.true_and, Bool.or_self, Bool.false_or, Bool.or_true]
+
+/-- **F33 repaired.** `UseUnsafe()` with the scalar on the left of a one-element tensor: the tensor's cell becomes the
+    1/0 form `op.same s t[0]` (scalar FIRST) and the tensor is returned; apart from the scalar's temporary header
+    nothing else changes. -/
+theorem engCmpScalar_unsafe_left_one' (st : St) (op : String) (tc : List String) (t : Dense) (sc : ScalarArg)
+    (hta : tc.contains t.dt = true) (hdt : t.dt = sc.dt) (hs1 : sc.win.len = 1) (ht1 : t.win.len = 1)
+    (hne : sc.win.buf ≠ t.win.buf) (hcap : 1 ≤ t.win.cap)
+    (hS : InBuf st sc.win.buf sc.win.off 1) (hT : InBuf st t.win.buf t.win.off 1) :
+    ∃ st', engCmpScalar st op tc t sc false { unsafe_ := true } = .ok ⟨st', none, .a⟩ ∧ st'.mheap = st.mheap ∧
+      cell st' t.win.buf t.win.off =
+        some (.app2 (op ++ ".same") (cellD st sc.win.buf sc.win.off) (cellD st t.win.buf t.win.off)) ∧
+      (∀ b' k, b' ≠ sc.win.buf → (b' ≠ t.win.buf ∨ k ≠ t.win.off) → cell st' b' k = cell st b' k) := by
+  have hit : t.requiresIterator = false := by simp [Dense.requiresIterator, ht1]
+  rw [engCmpScalar_raw_unsafe_left st op tc t sc hta hdt hit, eOp_VV _ _ _ _ _ (by rw [hs1, ht1])]
+  obtain ⟨s1, h1, w1⟩ := kVV_spec st sc.win t.win (fun x y => .app2 (op ++ ".same") x y) hne (by rw [hs1]; exact hcap)
+    (by rw [hs1]; exact hS.has) (by rw [hs1]; exact hT.has)
+  rw [hs1] at w1
+  have hmin : min t.win.len sc.win.len = 1 := by rw [hs1, ht1]; rfl
+  obtain ⟨s2, h2, w2⟩ := rawCopy_total s1 t.win sc.win (by rw [hmin]; exact w1.has hS.has) (by rw [hmin]; exact w1.has hT.has)
+  rw [hmin] at w2
+  have hb : (sc.win.len == 1 && t.win.len == 1) = true := by simp [hs1, ht1]
+  refine ⟨s2, by simp only [h1, hb, h2, bind, Except.bind, if_true]; rfl, w2.mheap.trans w1.mheap, ?_, ?_⟩
+  · have hv2 := w2.val 0 (by omega)
+    have hv1 := w1.val 0 (by omega)
+    simp only [Nat.add_zero] at hv2 hv1
+    rw [hv2, cellD_of_some hv1]
+  · intro b' k hb' hbk
+    rw [w2.frame b' k (by rcases hbk with h | h; exact Or.inl h; exact Or.inr (by omega)), w1.other hb']
+
 /-! ### `engUnary`, `engMap` -/
+
+theorem shapeEq_self (s : Shape) : shapeEq s s = true := by
+  unfold shapeEq
+  split
+  · rfl
+  · split
+    · rename_i h; simp only [Bool.and_eq_true, beq_iff_eq] at h; omega
+    · split
+      · rename_i h; simp only [Bool.and_eq_true, beq_iff_eq] at h; omega
+      · simp
+
 
 theorem engUnary_raw_safe (st : St) (g : UnF) (tc kt : List String) (strict : Bool) (a : Dense)
     (hta : tc.contains a.dt = true) (hk : kt.contains a.dt = true) (hia : a.requiresIterator = false) :
@@ -1831,10 +1889,18 @@ theorem cloneOf_requiresIterator (st : St) (a : Dense) (hm : a.mask = none) :
     (cloneOf st a).requiresIterator = a.requiresIterator := by
   simp [Dense.requiresIterator, cloneOf, hm]
 
+/-- a destination made by `Map` itself that has the operand's shape is returned as it is -/
+theorem mapFin_created (a c : Dense) (given : Option Dense) (hs : c.shape = a.shape) (s : St) :
+    mapFin a given (some c) true s = .ok ⟨s, given, .fresh c⟩ := by
+  have h1 : (c.dims == a.dims) = true := by simp [Dense.dims, show c.ap.shape = a.ap.shape from hs]
+  have h2 : shapeEq c.shape a.shape = true := by rw [hs]; exact shapeEq_self _
+  unfold mapFin
+  simp [h1, h2, pure, Except.pure]
+
 /-- safe `Map` on a plain tensor: `g` is applied to a clone of the operand's data -/
 theorem engMap_safe' (st : St) (g : UnF) (mt : List String) (a : Dense)
     (hmt : mt.contains a.dt = true) (hmz : a.isMaterializable = false) (hia : a.requiresIterator = false)
-    (hm : a.mask = none) (hsz : (a.win.len : Int) = totalSize a.shape)
+    (hm : a.mask = none)
     (hA : InBuf st a.win.buf a.win.off a.win.len) :
     ∃ st' c, engMap st g mt a {} = .ok ⟨st', none, .fresh c⟩ ∧ st'.mheap = st.mheap ∧
       c.win = ⟨st.heap.size, 0, a.win.len, a.win.len⟩ ∧ c.ap.shape = a.shape ∧ c.dt = a.dt ∧
@@ -1846,13 +1912,10 @@ theorem engMap_safe' (st : St) (g : UnF) (mt : List String) (a : Dense)
     rw [Nat.zero_add, hv1 i hi]; rfl
   obtain ⟨s2, h2, w2⟩ := kUn_spec s1 (cloneOf st a).win g hHc
   have hic : (cloneOf st a).requiresIterator = false := by rw [cloneOf_requiresIterator st a hm, hia]
-  have hne : ((a.win.len : Int) != totalSize a.shape) = false := by simp [hsz]
-  have hcl : (cloneOf st a).win.len = a.win.len := rfl
-  have hcv : (cloneOf st a).view = false := rfl
-  unfold engMap
-  simp only [hfo_none, materialize_self' st a hmz, h1, hia, hic, hmt, h2, hcl, hcv, hne, bind, Except.bind, pure, Except.pure,
-    Bool.not_true, Bool.false_eq_true, if_false, Bool.or_false, Bool.not_false, if_true, Option.getD_some,
-    Bool.false_and, Bool.and_false, Bool.true_and]
+  have hfin := mapFin_created a (cloneOf st a) none rfl s2
+  unfold engMap mapKern
+  simp only [hfo_none, materialize_self' st a hmz, h1, hia, hic, hmt, h2, hfin, bind, Except.bind, pure, Except.pure,
+    Bool.not_true, Bool.false_eq_true, if_false, Bool.or_false, Bool.not_false, if_true]
   simp only [cloneOf] at w2
   refine ⟨s2, _, rfl, w2.mheap.trans hm1, rfl, rfl, rfl, ?_, ?_⟩
   · intro i hi
@@ -1863,22 +1926,115 @@ theorem engMap_safe' (st : St) (g : UnF) (mt : List String) (a : Dense)
     rw [w2.other (Nat.ne_of_lt hb'), hf1 b' k hb']
 
 
-/-- `Map` with a reuse tensor (finding F34): `g` is applied to the reuse tensor's *own* data; the
-    operand's data is never read. -/
-theorem engMap_reuse_actual' (st : St) (g : UnF) (mt : List String) (a r : Dense)
+/-- the outcome of `Map` for a destination `r` given by the caller: `r` itself when it has exactly the operand's shape,
+    else `r` reshaped by `reuseCheckShape` — the same storage window in both cases -/
+theorem mapFin_given (a r : Dense) (hr : ReuseFits r a.shape a.dt a.ap.o.col) (s : St) :
+    ∃ r', mapFin a (some r) (some r) false s = .ok ⟨s, some r', .reuse⟩ ∧ r'.win = r.win := by
+  have hne : ((r.win.len : Int) != totalSize a.shape) = false := by simp [hr.len]
+  unfold mapFin
+  by_cases hd : (r.dims == a.dims && shapeEq r.shape a.shape) = true
+  · exact ⟨r, by simp [hd, pure, Except.pure], rfl⟩
+  · refine ⟨{ r with ap := { r.ap with shape := a.shape, strides := if a.shape.isEmpty then [] else Dense.defaultStrides r.ap.o.col a.shape, fin := true }, old := none, tw := none, view := false }, ?_, rfl⟩
+    simp [hd, hne, pure, Except.pure]
+
+/-- `Map` with a reuse tensor on the raw path: copy of the operand's elements, then the function in place -/
+theorem engMap_raw_reuse (st : St) (g : UnF) (mt : List String) (a r : Dense)
+    (hmt : mt.contains a.dt = true) (hia : a.requiresIterator = false) (hir : r.requiresIterator = false)
+    (hr : ReuseFits r a.shape a.dt a.ap.o.col) (hts : totalSize r.shape = totalSize a.shape) :
+    engMap st g mt a { reuse := some r } = (do
+      let s ← Dense.rawCopy st r.win a.win
+      let s ← kUn s r.win g
+      mapFin a (some r) (some r) false s) := by
+  have hts' : (totalSize a.shape != totalSize r.shape) = false := by simp [hts]
+  unfold engMap mapKern
+  simp only [hfo_reuse _ _ _ _ _ _ hr, hts', hia, hir, hmt, bind, Except.bind, pure, Except.pure,
+    Bool.not_true, Bool.false_eq_true, if_false, Bool.or_false, Bool.not_false, if_true]
+
+/-- `Map` with a reuse tensor (finding F34, repaired): the reuse tensor receives `g a[i]`; nothing outside its window
+    changes -/
+theorem engMap_reuse' (st : St) (g : UnF) (mt : List String) (a r : Dense)
     (hmt : mt.contains a.dt = true) (hia : a.requiresIterator = false) (hir : r.requiresIterator = false)
     (hr : ReuseFits r a.shape a.dt a.ap.o.col) (hts : totalSize r.shape = totalSize a.shape)
-    (hR : InBuf st r.win.buf r.win.off r.win.len) :
+    (hlen : r.win.len = a.win.len)
+    (hA : InBuf st a.win.buf a.win.off a.win.len) (hR : InBuf st r.win.buf r.win.off r.win.len) :
     ∃ st' r', engMap st g mt a { reuse := some r } = .ok ⟨st', some r', .reuse⟩ ∧ r'.win = r.win ∧
-      Writes st st' r.win.buf r.win.off r.win.len (fun i => g (cellD st r.win.buf (r.win.off + i))) := by
-  obtain ⟨s2, h2, w2⟩ := kUn_spec st r.win g hR.has
-  have hne : ((r.win.len : Int) != totalSize a.shape) = false := by simp [hr.len]
+      Writes st st' r.win.buf r.win.off r.win.len (fun i => g (cellD st a.win.buf (a.win.off + i))) := by
+  rw [engMap_raw_reuse st g mt a r hmt hia hir hr hts]
+  have hmin : min r.win.len a.win.len = r.win.len := by rw [hlen, Nat.min_self]
+  obtain ⟨s1, h1, w1⟩ := rawCopy_total st r.win a.win (by rw [hmin, hlen]; exact hA.has) (by rw [hmin]; exact hR.has)
+  rw [hmin] at w1
+  obtain ⟨s2, h2, w2⟩ := kUn_spec s1 r.win g (w1.has hR.has)
+  obtain ⟨r', h3, hw⟩ := mapFin_given a r hr s2
+  refine ⟨s2, r', by simp only [h1, h2, h3, bind, Except.bind], hw, w2.mheap.trans w1.mheap, w2.size.trans w1.size, ?_, ?_⟩
+  · intro i hi
+    rw [w2.val i hi, cellD_of_some (w1.val i hi)]
+  · intro b' k hbk
+    rw [w2.frame b' k hbk, w1.frame b' k hbk]
+
+/-- `Map` with an increment tensor on the raw path: the function over a clone of the operand, the clone added to the
+    destination -/
+theorem engMap_raw_incr (st : St) (g : UnF) (mt : List String) (a r : Dense)
+    (hmt : mt.contains a.dt = true) (hnb : (a.dt == "b") = false)
+    (hia : a.requiresIterator = false) (hir : r.requiresIterator = false)
+    (hr : ReuseFits r a.shape a.dt a.ap.o.col) (hts : totalSize r.shape = totalSize a.shape) :
+    engMap st g mt a { incr := some r } = (do
+      let (s, c) ← a.clone st
+      let s ← kUn s c.win g
+      let s ← eOp s r.win c.win (fun x y => .app2 "add" x y)
+      mapFin a (some r) (some r) false s) := by
   have hts' : (totalSize a.shape != totalSize r.shape) = false := by simp [hts]
-  unfold engMap
-  simp only [hfo_reuse _ _ _ _ _ _ hr, hts', hia, hir, hmt, h2, hne, bind, Except.bind, pure, Except.pure,
-    Bool.not_true, Bool.false_eq_true, if_false, Bool.or_false, Bool.not_false, if_true, Option.getD_some,
-    Bool.false_and, Bool.and_false, Bool.true_and]
-  exact ⟨s2, _, rfl, rfl, w2⟩
+  unfold engMap mapKern
+  simp only [hfo_incr _ _ _ _ _ _ hr, hts', hia, hir, hmt, hnb, bind, Except.bind, pure, Except.pure,
+    Bool.not_true, Bool.false_eq_true, if_false, Bool.or_false, Bool.not_false, if_true]
+
+/-- `Map` with an increment tensor (finding F34, repaired): `r[i] += g a[i]`; the operand and every other existing cell
+    are unchanged -/
+theorem engMap_incr' (st : St) (g : UnF) (mt : List String) (a r : Dense)
+    (hmt : mt.contains a.dt = true) (hnb : (a.dt == "b") = false)
+    (hia : a.requiresIterator = false) (hir : r.requiresIterator = false)
+    (hr : ReuseFits r a.shape a.dt a.ap.o.col) (hts : totalSize r.shape = totalSize a.shape)
+    (hlen : r.win.len = a.win.len) (hm : a.mask = none)
+    (hA : InBuf st a.win.buf a.win.off a.win.len) (hR : InBuf st r.win.buf r.win.off r.win.len) :
+    ∃ st' r', engMap st g mt a { incr := some r } = .ok ⟨st', some r', .reuse⟩ ∧ r'.win = r.win ∧
+      st'.mheap = st.mheap ∧
+      (∀ i, i < r.win.len → cell st' r.win.buf (r.win.off + i) =
+        some (.app2 "add" (cellD st r.win.buf (r.win.off + i)) (g (cellD st a.win.buf (a.win.off + i))))) ∧
+      (∀ b' k, b' < st.heap.size → (b' ≠ r.win.buf ∨ k < r.win.off ∨ r.win.off + r.win.len ≤ k) →
+        cell st' b' k = cell st b' k) := by
+  rw [engMap_raw_incr st g mt a r hmt hnb hia hir hr hts]
+  obtain ⟨s1, h1, hm1, hs1, hv1, hf1⟩ := clone_spec st a hm hA.lt hA.has
+  have hHc : Has s1 st.heap.size 0 a.win.len := by
+    intro i hi
+    rw [Nat.zero_add, hv1 i hi]; rfl
+  obtain ⟨s2, h2, w2⟩ := kUn_spec s1 (cloneOf st a).win g hHc
+  have hrb : r.win.buf ≠ st.heap.size := Nat.ne_of_lt hR.lt
+  have hR1 : Has s1 r.win.buf r.win.off r.win.len := by
+    intro i hi
+    rw [hf1 _ _ hR.lt]; exact hR.has i hi
+  have hR2 : Has s2 r.win.buf r.win.off r.win.len := w2.has hR1
+  have hC2 : Has s2 st.heap.size 0 r.win.len := by
+    rw [hlen]; exact w2.has hHc
+  obtain ⟨s3, h3, w3⟩ := kVV_spec s2 r.win (cloneOf st a).win (fun x y => .app2 "add" x y) hrb
+    (by simp only [cloneOf]; omega) hR2 hC2
+  obtain ⟨r', h4, hw⟩ := mapFin_given a r hr s3
+  have he : eOp s2 r.win (cloneOf st a).win (fun x y => .app2 "add" x y) = .ok s3 := by
+    rw [eOp_VV _ _ _ _ _ (by simp only [cloneOf, hlen]), h3]
+  refine ⟨s3, r', by simp only [h1, h2, he, h4, bind, Except.bind], hw,
+    w3.mheap.trans (w2.mheap.trans hm1), ?_, ?_⟩
+  · intro i hi
+    have hv3 := w3.val i hi
+    simp only [cloneOf, Nat.zero_add] at hv3
+    rw [hv3]
+    have e1 : cellD s2 r.win.buf (r.win.off + i) = cellD st r.win.buf (r.win.off + i) := by
+      unfold cellD
+      rw [w2.other (by simpa [cloneOf] using hrb), hf1 _ _ hR.lt]
+    have hv2 := w2.val i (by simp only [cloneOf]; omega)
+    simp only [cloneOf, Nat.zero_add] at hv2
+    have e2 : cellD s2 st.heap.size i = g (cellD st a.win.buf (a.win.off + i)) := by
+      rw [cellD_of_some hv2, cellD_of_some (hv1 i (by omega))]
+    rw [e1, e2]
+  · intro b' k hb' hbk
+    rw [w3.frame b' k hbk, w2.other (by simpa [cloneOf] using Nat.ne_of_lt hb'), hf1 b' k hb']
 
 /-! ### link with C05: iterator offsets are the row-major logical offsets -/
 
@@ -2118,15 +2274,5 @@ theorem nodup_pos_unique {l : ItS} (h : (l.map (·.1)).Nodup) {n : Nat} (hr : In
   have h1 := hr p (List.mem_of_getElem? hk)
   have h2 := hr q (List.mem_of_getElem? hk')
   omega
-
-theorem shapeEq_self (s : Shape) : shapeEq s s = true := by
-  unfold shapeEq
-  split
-  · rfl
-  · split
-    · rename_i h; simp only [Bool.and_eq_true, beq_iff_eq] at h; omega
-    · split
-      · rename_i h; simp only [Bool.and_eq_true, beq_iff_eq] at h; omega
-      · simp
 
 end TM
